@@ -63,6 +63,13 @@ Lemma gen_tmp_name_ok :
   gen_tmp_name_src = std_tmp_name_src /\ (16 <=? gen_tmp_name_bytes)%N = true /\ gen_tmp_in_dir = true.
 Proof. vm_compute. repeat split. Qed.
 
+(** ** Create (fs, mem, mapped) touches its input reader only by handing it,
+    as it is, to io.TeeReader / io.ReadAll / io.Copy: no Seek, no type
+    assertion, no other method — the reader is consumed from wherever it
+    stands to its end, which is what the model's script of a call is. *)
+Lemma gen_create_reader_sequential : gen_create_uses_reader_sequentially = [true; true; true].
+Proof. vm_compute. reflexivity. Qed.
+
 (** ** mem: slices are copied on the way in and on the way out *)
 
 Lemma gen_mem_put_copies_ok : gen_mem_put_copies = true.
